@@ -12,6 +12,7 @@ CONSTANTS
   BUNDLE = {"lim"}
   STALL = {2, 4}
   LateResponseOK = TRUE
+  NoTimeout = FALSE
 INVARIANTS TypeOK AtMostOne ExactlyOnce Kind Attribution
 PROPERTIES Stable
 CHECK_DEADLOCK FALSE
